@@ -5,7 +5,8 @@
    still referenced by an unacknowledged section is never evicted. *)
 From H3V Require Import Base.Bytes Gen.GenQpack Model.Vas Model.DynTable Model.QInstr Model.QEncoder Model.QDecoder Model.QSystem
   Proofs.VasProofs Proofs.QPrefixProofs Proofs.AMapLemmas Proofs.DynTableProofs Proofs.QEncoderProofs Proofs.QSystemProofs
-  Proofs.QSimulationProofs Proofs.QDenotationProofs Proofs.QAgreementProofs Proofs.QAccountingProofs.
+  Proofs.QSimulationProofs Proofs.QDenotationProofs Proofs.QAgreementProofs Proofs.QAccountingProofs
+  Model.QWire Model.QBytes Proofs.QBytesProofs.
 
 (* ------------------------------------------------------------------ T1: capacity *)
 (* the table invariant dt_ok (size accounting curr_size = sum of entry sizes <= max_size, index space, both look-up maps
@@ -141,6 +142,37 @@ Theorem C20_honest_decode_outcome :
       end.
 Proof. exact sys_honest_decode_outcome. Qed.
 
+(* byte-granular delivery: handing the two streams over a few BYTES at a time (the receiver keeps an incomplete
+   instruction and sees it again, completed, on a later call) amounts to an instruction-granular schedule - the number of
+   instructions complete within the bytes so far is computed from the wire lengths of Model/QWire.v - so agreement holds
+   for byte-granular schedules too.  NOT proved here: that the Rust parsers (parse_instruction / Action::parse over
+   prefix_int / prefix_string) return exactly those instructions and keep exactly that tail; this is tied by the
+   correspondence run only (ops i<n> / k<n>, cuts inside string literals and multi-byte integers). *)
+Theorem C20_byte_schedule_is_instruction_schedule :
+  forall os b,
+    b_sys (fst (brun b os)) = fst (sys_run (b_sys b) (bops_ops b os)) /\
+    snd (brun b os) = snd (sys_run (b_sys b) (bops_ops b os)) /\
+    (forallb honest_bop os = true -> forallb honest_op (bops_ops b os) = true).
+Proof. exact brun_is_sys_run. Qed.
+
+Theorem C20_agreement_byte_schedules :
+  forall cap blocked s os b' j sec,
+    sys_init cap blocked = Some s -> forallb honest_bop os = true -> fst (brun (mkBsys s 0 0) os) = b' ->
+    v_inserted (dt_vas (s_enc (b_sys b'))) < 2 ^ 62 ->
+    nth_error (s_secs (b_sys b')) j = Some sec -> sec_done sec = false ->
+    dec_decode_header (s_dec (b_sys b')) (sec_block sec) =
+      if v_inserted (dt_vas (s_dec (b_sys b'))) <? sec_required sec then Err (DEMissingRefs (sec_required sec))
+      else Ok (sec_fields sec, 0 <? sec_required sec).
+Proof. exact bsys_agreement. Qed.
+
+Example C20_byte_schedule_inhabited :
+  match sys_init 4096 100 with
+  | Some s => snd (brun (mkBsys s 0 0) [BOp (OEncode 4 [([97], [98])]); BDeliverBytes 2; BOp (ODecode 0 true); BDeliverBytes 2; BOp (ODecode 0 true)])
+  | None => []
+  end = [REncoded (mkEncoded 1 (mkPrefix 2 true 0, [BIndexedPost 0]) [IInsertLit [97] [98]]);
+         RDelivered 0 None; RDecErr (DEMissingRefs 1); RDelivered 1 (Some (DIncrement 1)); RDecoded [([97], [98])] true].
+Proof. vm_compute. reflexivity. Qed.
+
 (* T2, second form: in such histories the encoder never evicts an entry the decoder has not received, and every entry a
    not yet acknowledged section refers to is in the encoder's table with a positive reference count *)
 Theorem C20_unacknowledged_entries_protected :
@@ -239,5 +271,7 @@ Print Assumptions C20_encode_total.
 Print Assumptions C20_agreement.
 Print Assumptions C20_honest_decode_outcome.
 Print Assumptions C20_unacknowledged_entries_protected.
+Print Assumptions C20_byte_schedule_is_instruction_schedule.
+Print Assumptions C20_agreement_byte_schedules.
 Print Assumptions C20_agreement_any_state_partial.
 Print Assumptions C20_cancel_blocked_refuted.
